@@ -77,7 +77,7 @@ func NewSession(kind string, timeoutMs int) (*Session, error) {
 	}
 	s.send("(set-option :produce-models true)\n")
 	if Seed != 0 && kind != "cvc5" {
-		s.send(fmt.Sprintf("(set-option :random_seed %d)\n(set-option :sat.random_seed %d)\n(set-option :smt.random_seed %d)\n", Seed, Seed, Seed))
+		s.send(fmt.Sprintf("(set-option :sat.random_seed %d)\n(set-option :smt.random_seed %d)\n", Seed, Seed))
 	}
 	return s, nil
 }
